@@ -300,13 +300,34 @@ def execute(ctx, progs, tag):
 
 
 STUB = {"ok": False}
+COMPS = ["ok", "panic", "err", "stack", "printed", "effects", "globals", "steps", "filename", "loads", "fns"]
 
 
 def tlc_record(r):
-    """records of sources that compile; a failed decode keeps only the flag"""
+    """records of sources that compile; a failed decode keeps only the flag.  The two sides are interned:
+    tab[c] lists the distinct values of component c (one entry when P and Q agree), p and q hold
+    1-based indices; C17Trace expands them again.  Likewise ftab / pf / qf for the program fields."""
     if not r.get("decok"):
-        return {"id": r["id"], "decok": False, "same": False, "hasf": False, "ver": 0, "p": STUB, "q": STUB, "b1": STUB}
-    out = {"id": r["id"], "decok": True, "same": r["same"], "hasf": r["hasf"], "ver": r["ver"], "p": r["p"], "q": r["q"], "b1": r.get("b1", STUB)}
+        return {"id": r["id"], "decok": False, "same": False, "hasf": False, "ver": 0, "tab": STUB, "p": STUB, "q": STUB,
+                "ftab": [], "pf": 0, "qf": 0, "b1": STUB}
+    tab, p, q = {}, {}, {}
+    for c in COMPS:
+        tab[c] = [r["p"][c]]
+        p[c] = 1
+        if r["q"][c] == r["p"][c]:
+            q[c] = 1
+        else:
+            tab[c].append(r["q"][c])
+            q[c] = 2
+    out = {"id": r["id"], "decok": True, "same": r["same"], "hasf": r["hasf"], "ver": r["ver"], "tab": tab, "p": p, "q": q,
+           "ftab": [], "pf": 0, "qf": 0, "b1": STUB}
+    if r["hasf"]:
+        out["ftab"] = [r["p"]["fields"]]
+        out["pf"] = out["qf"] = 1
+        if r["q"]["fields"] != r["p"]["fields"]:
+            out["ftab"].append(r["q"]["fields"])
+            out["qf"] = 2
+        out["b1"] = r["b1"]
     return out
 
 
@@ -383,9 +404,9 @@ def run(ctx):
         rr = rawmap[pid]
         detail = ""
         if rr.get("decok"):
-            for k in ("ok", "err", "stack", "steps", "printed"):
+            for k in ("ok", "err", "stack", "steps", "printed", "effects", "globals", "filename", "loads", "fns"):
                 if rr["p"][k] != rr["q"][k]:
-                    detail = " %s: source %s / reloaded %s" % (k, json.dumps(rr["p"][k])[:200], json.dumps(rr["q"][k])[:200])
+                    detail = " %s: from source %s / after Write+Read %s" % (k, json.dumps(rr["p"][k])[:200], json.dumps(rr["q"][k])[:200])
                     break
         else:
             detail = " CompiledProgram(Write(P)) failed: %s" % rr.get("decerr")
